@@ -13,9 +13,9 @@ RULE = ('case = build history (prelude with Ref/RefList columns incl. self refer
         'records). For each removal bundle the set of removed rows per table is computed from before/after row ids. '
         'Non-trivial = at least one surviving Ref/RefList data cell referenced a removed row before the bundle; '
         'distinct by hash of concrete user actions.')
-ORACLE = ('for every data (non-formula) Ref/RefList cell, in user and metadata tables, that exists before and after the '
-          'bundle and whose column still targets table T: after == before with removed(T) filtered out (RefList keeps '
-          'order, becomes None when empty; Ref becomes 0); no cell contains an id of removed(T)')
+ORACLE = ('for every data (non-formula) Ref/RefList cell, in user and metadata tables, whose column targets table T after the '
+          'bundle: it contains no id of removed(T); a user-table RefList cell that referenced removed rows equals its '
+          'previous value with removed(T) filtered out (order kept, None when empty)')
 ASSUMPTIONS = ['removal bundles contain only removal operations, so the expected value of a reference cell is its '
                'previous value minus removed rows', 'summary-table group-by reference columns mirror their source and '
                'are compared like any other data cell only when the summary row survives with the same id']
@@ -108,7 +108,10 @@ def run_case(case):
         if b and b[0] == kind and b[1] == target and row in b[2] and rem and mentions(kind, b[2][row], rem):
           st8['nt'] = True
           exp = expected_after(kind, b[2][row], rem)
-          if eqv.canon(exp) != eqv.canon(v):
+          # The statement fixes the resulting value only for RefList cells ("keeps its other ids in order and
+          # becomes empty (None)"); a Ref cell must merely not dangle (metadata may legitimately re-point it, e.g. a
+          # summary section moves to another summary table). Metadata RefLists are only checked for dangling ids.
+          if kind == 'RefList' and not key[0].startswith('_grist_') and eqv.canon(exp) != eqv.canon(v):
             out.fail('C10:wrong-cleanup:%s:%s' % (('meta:%s.%s' % key) if key[0].startswith('_grist_') else ('user:' + kind), sig),
                      'after %r cell %s[%s].%s was %r, expected %r after removing %r, got %r' % (
                        uas, key[0], row, key[1], b[2][row], exp, sorted(rem)[:6], v))
